@@ -47,6 +47,10 @@ CHECKS["C14"] = dict(cat="exploration", technique="exhaustive enumeration of ite
              text="Every sequence of one to three data-area items over the alphabet (data of nine element types with 1 or 3 elements, bss of 0/1/7/8/9 bytes, ref to an earlier item, a later item, an import and a function with and without displacement, four lref forms, expr of eight result types), each named or anonymous, is placed between two named sentinels, loaded and linked; "
                   "the harness checks section heads, contiguity (addr[k+1]==addr[k]+size[k]), declared bytes, zeroed bss, ref = target address + disp, expr = value of the expression function, and for lrefs the label address / difference once the function ran, including a jmpi through the stored value, under the interpreter and gen -O2.",
              note="558174 modules in both tiers; the thorough tier also runs 120000 of them on the asan build", ref="§3 C14")
+CHECKS["C16"] = dict(cat="model_checking", technique="explicit-state BFS over generation/use histories on the real context (state = replayed history) with invariants checked in every state",
+             text="For six representative programs of each program family and each start configuration (interpreter interface, eager generation at link, lazy generation) all histories up to depth 5-6 over gen(f), level changes, output, interpretation, calls through the public address and linking of later modules that call or inline f are executed; "
+                  "in every state MIR_output_item(f) must equal the text after a link without generation, f->addr must be unchanged, a repeated MIR_gen must return the same address and every execution must behave as refinterp says the program as written behaves.",
+             note="histories that interpret a function before its first generation are outside the property and not explored (they crash the generator: noted in DESIGN.md); thorough tier repeats on the asan build except programs whose inlined callee uses alloca (ASan artefact of the interpreter's bstart/bend)", ref="§3 C16")
 NOT_YET = {}
 def main():
     props = [json.loads(l) for l in open(os.path.join(VERIF, "properties.jsonl"))]
